@@ -226,7 +226,24 @@ def build_mode(case, parent):
     pipe = pyx.make_pipeline({"photon_collection": [{"name": "c19", "func": "probes.c19_fill",
                                                      "arguments": {"a": float(case["a"][0]), "b": float(case["b"][0]),
                                                                    "as_particles": bool(case.get("particles", False)),
-                                                                   "count_scale": float(case.get("count_scale", 0.0))}}]})
+                                                                   "count_scale": float(case.get("count_scale", 0.0)),
+                                                                   "noise": float(case.get("noise", 0.0))}}]})
+    if case.get("header_from_uint16_fits"):
+        # a header propagated from a uint16 FITS input (BZERO = 32768, BSCALE = 1) travels with the detector into the
+        # FITS files of the float buckets
+        import numpy as np
+        from astropy.io import fits
+
+        src = os.path.join(os.path.dirname(os.path.dirname(parent)), "input_u16.fits")
+        if not os.path.exists(src):
+            os.makedirs(os.path.dirname(src), exist_ok=True)
+            fits.writeto(src + f".{os.getpid()}.tmp", (np.arange(ROWS * COLS).reshape(ROWS, COLS) + 40000).astype("uint16"), overwrite=True)
+            os.replace(src + f".{os.getpid()}.tmp", src)
+        pipe = pyx.make_pipeline({"photon_collection": [
+            {"name": "input", "func": "pyxel.models.photon_collection.load_image", "arguments": {"image_file": src, "include_header": True}},
+            {"name": "c19", "func": "probes.c19_fill",
+             "arguments": {"a": float(case["a"][0]), "b": float(case["b"][0]), "as_particles": bool(case.get("particles", False)),
+                           "count_scale": float(case.get("count_scale", 0.0))}}]})
     det = pyx.make_detector("CCD", ROWS, COLS)
     times = [1.0] if case["readouts"] == 1 else [1.0, 2.5]
     if case.get("yaml") and case["mode"] != "deprecated-exposure":
@@ -438,8 +455,19 @@ def one_run(case, parent):
                         r = a_order.index(float(av)) * nb + b_order.index(float(bv))
                         for name in np.atleast_1d(v).ravel().tolist():
                             reported.append([r, bucket, fmt, str(name), av, bv])
+    computed = {}
+    if case.get("noise") and case["mode"] == "parallel":
+        # a stochastic, unseeded pipeline: the file of a run must hold the bucket the RESULT reports for that run
+        nb = len(case["b"])
+        for r, bucket, fmt, name, av, bv in reported:
+            try:
+                da = res["bucket"][bucket].sel(a=float(av), b=float(bv))
+                arr = np.asarray(da.values)
+                computed[f"{r}:{bucket}"] = arr[-1] if arr.ndim == 3 else arr
+            except Exception:  # noqa: BLE001
+                pass
     return {"dir": os.path.basename(run_dir), "run_dir": run_dir, "reported": reported, "planted": planted,
-            "overwrite": overwrite_why}
+            "overwrite": overwrite_why, "_computed": computed}
 
 
 def stat_snapshot(folder):
@@ -513,6 +541,8 @@ def statement_run(case, impl):
             continue  # a foreign file that was in the way is left alone (never overwritten): not this run's data
         av, bv = attributed[(r, b, f)]
         exp = expected_bucket(b, av, bv)
+        if case.get("noise") and b == "pixel" and f"{r}:{b}" in impl.get("_computed", {}):
+            exp = impl["_computed"][f"{r}:{b}"]
         try:
             data = read_back(path, f)
         except Exception as e:  # noqa: BLE001
@@ -638,7 +668,9 @@ def gen_runs(rng, n, mode):
         prefix = rng.choice(["", "", "", "foo_"])
         save = gen_save(rng, mode)
         extra = {}
-        if mode == "parallel":
+        if mode == "parallel" and rng.random() < 0.35 and any(bk == "pixel" for bk, _ in save):
+            extra["noise"] = 4.0  # an unseeded stochastic model: computed once, files judged against the computed result
+        elif mode == "parallel":
             extra["computes"] = rng.choice([1, 2, 2])
             if rng.random() < 0.5:
                 # colliding names planted inside the fresh directory between run_mode and the first compute
@@ -647,7 +679,9 @@ def gen_runs(rng, n, mode):
         if any(bk == "charge" for bk, _ in save):
             # the charge bucket is (partly) held as charge clusters (costly: every read of the bucket re-bins the clusters)
             extra["particles"] = rng.random() < (0.5 if mode != "sequential" else 0.25)
-        if rng.random() < 0.35:
+        if any(f == "fits" for _, fmts in save for f in fmts) and rng.random() < 0.4:
+            extra["header_from_uint16_fits"] = True
+        elif rng.random() < 0.35:
             # the YAML route, with the deprecated output key absent / empty / null / set, before or after the current one
             extra["yaml"] = {"deprecated": rng.choice(["absent", "empty", "null", "value"]),
                              "key_order": rng.choice(["current-first", "deprecated-first"])}
@@ -764,6 +798,13 @@ def directed_runs():
             out.append({"stream": f"run-{mode}", "id": f"yaml-{dep}-{mode}", "mode": mode, "save": [["pixel", ["npy"]], ["image", ["npy", "fits"]]],
                         "a": [1] if mode == "exposure" else [1, 2], "b": [3], "readouts": 1, "prefix": "", "starts": 1, "pre": [],
                         "yaml": {"deprecated": dep, "key_order": "deprecated-first" if dep == "value" else "current-first"}})
+    out.append({"stream": "run-parallel", "id": "stochastic-unseeded", "mode": "parallel", "save": [["pixel", ["npy", "fits"]], ["image", ["npy"]]],
+                "a": [1, 2], "b": [3, 0], "readouts": 1, "prefix": "", "starts": 1, "pre": [], "noise": 4.0})
+    for mode in ("exposure", "sequential", "parallel"):
+        out.append({"stream": f"run-{mode}", "id": f"uint16-header-{mode}", "mode": mode,
+                    "save": [["pixel", ["fits"]], ["photon", ["fits", "npy"]], ["image", ["fits"]], ["signal", ["fits"]]],
+                    "a": [1] if mode == "exposure" else [1, 2], "b": [3], "readouts": 1, "prefix": "", "starts": 1, "pre": [],
+                    "header_from_uint16_fits": True})
     for mode in ("exposure", "sequential", "parallel"):
         out.append({"stream": f"run-{mode}", "id": f"charge-as-clusters-{mode}", "mode": mode, "save": [["charge", ["npy", "fits"]], ["pixel", ["npy"]]],
                     "a": [1] if mode == "exposure" else [1, 2], "b": [3], "readouts": 1, "prefix": "", "starts": 1, "pre": [], "particles": True})
@@ -972,6 +1013,10 @@ def body(ck: common.Check):
                 for _, fmts in case["save"]:
                     for f in fmts:
                         ck.count(f"format={f}")
+                if case.get("noise"):
+                    ck.count(f"{s}:stochastic-unseeded-pipeline")
+                if case.get("header_from_uint16_fits"):
+                    ck.count(f"{s}:header-propagated-from-uint16-FITS-input")
                 if case.get("yaml"):
                     ck.count(f"{s}:built-from-YAML:deprecated-output-key={case['yaml']['deprecated']}")
                 if case.get("particles") and any(bk == "charge" for bk, _ in case["save"]):
